@@ -327,60 +327,69 @@ def case_strain(case, ctx, pym):
     mode_t, w = _judge_strain(ctx, _out(m_t), ref_t, dim, nel, tol_e, False, info)
     worst = max(worst, w)
 
-    # ---- Stress and energy on unit thickness
-    dom1 = dom if dim == 3 else _domain(pym, n, [h[0], h[1], 1.0])
-    D = constitutive(E, nu, "3d" if dim == 3 else plane)
-    Dmax = float(np.max(np.abs(D)))
-    m_s = pym.Stress(S("u", u.copy()), domain=dom1, e_modulus=E, poisson_ratio=nu, plane=plane)
-    m_s.response()
-    sig = _out(m_s)
-    m_e = pym.Strain(S("u", u.copy()), domain=dom1)
-    m_e.response()
-    eps1 = _out(m_e)
-    mode_1, w = _judge_strain(ctx, eps1, ref_v, dim, nel, tol_e, True, info)
-    worst = max(worst, w)
-    nstr = len(ref_v)
-    require(sig.shape == (nstr, nel), "stress/output-shape-wrong", got=sig.shape, want=(nstr, nel), **info)
-    tol_s = 1e-12 * Dmax * umax / hmin
-    ref2 = ref_v.copy()
-    ref2[dim:] *= 2
-    ds_stated = float(np.max(np.abs(sig - (D @ ref_v)[:, None])))
-    ds_doubled = float(np.max(np.abs(sig - (D @ ref2)[:, None])))
-    ctx.count("stress_entries_compared", sig.size)
-    stress_mode = "conforming"
-    if not ds_stated <= tol_s:
-        if mode_1 == "doubled" and ds_doubled <= tol_s:
-            stress_mode = "doubled"      # D times the strain the module returns: consequence of K1 only
-        else:
-            e = int(np.argmax(np.max(np.abs(sig - (D @ ref_v)[:, None]), axis=0)))
-            raise Violation("stress/not-constitutive-matrix-times-strain", error=ds_stated, tol=tol_s, element=e,
-                            got=sig[:, e], want=D @ ref_v, strain_returned=eps1[:, e], E=E, nu=nu, plane=plane,
-                            strain_mode=mode_1, **info)
+    # ---- Stress and energy on unit thickness (a deviation here must not hide the known finding seen above)
+    try:
+        dom1 = dom if dim == 3 else _domain(pym, n, [h[0], h[1], 1.0])
+        D = constitutive(E, nu, "3d" if dim == 3 else plane)
+        Dmax = float(np.max(np.abs(D)))
+        m_s = pym.Stress(S("u", u.copy()), domain=dom1, e_modulus=E, poisson_ratio=nu, plane=plane)
+        m_s.response()
+        sig = _out(m_s)
+        m_e = pym.Strain(S("u", u.copy()), domain=dom1)
+        m_e.response()
+        eps1 = _out(m_e)
+        mode_1, w = _judge_strain(ctx, eps1, ref_v, dim, nel, tol_e, True, info)
+        worst = max(worst, w)
+        nstr = len(ref_v)
+        require(sig.shape == (nstr, nel), "stress/output-shape-wrong", got=sig.shape, want=(nstr, nel), **info)
+        tol_s = 1e-12 * Dmax * umax / hmin
+        ref2 = ref_v.copy()
+        ref2[dim:] *= 2
+        ds_stated = float(np.max(np.abs(sig - (D @ ref_v)[:, None])))
+        ds_doubled = float(np.max(np.abs(sig - (D @ ref2)[:, None])))
+        ctx.count("stress_entries_compared", sig.size)
+        stress_mode = "conforming"
+        if not ds_stated <= tol_s:
+            if mode_1 == "doubled" and ds_doubled <= tol_s:
+                stress_mode = "doubled"      # D times the strain the module returns: consequence of K1 only
+            else:
+                e = int(np.argmax(np.max(np.abs(sig - (D @ ref_v)[:, None]), axis=0)))
+                raise Violation("stress/not-constitutive-matrix-times-strain", error=ds_stated, tol=tol_s, element=e,
+                                got=sig[:, e], want=D @ ref_v, strain_returned=eps1[:, e], E=E, nu=nu, plane=plane,
+                                strain_mode=mode_1, **info)
 
-    m_k = pym.AssembleStiffness(S("x", x.copy()), domain=dom1, e_modulus=E, poisson_ratio=nu, plane=plane)
-    m_k.response()
-    K = m_k.sig_out[0].state
-    Ve = float(np.prod(h[:dim]))
-    en = float(np.sum(x * Ve * np.sum(sig * eps1, axis=0)))
-    uKu = float(u @ (K @ u))
-    S_E = float(np.abs(u) @ (abs(K) @ np.abs(u)))
-    tol_E = 1e-12 * S_E
-    shear_energy = float(np.sum(x) * Ve * ((D @ ref_v)[dim:] @ ref_v[dim:]))
-    ctx.count("energy_identities_compared")
-    # with a large rigid offset the rounding bound of u'Ku exceeds the energy itself: compared, but not counted
-    disc = bool(tol_E <= 1e-6 * abs(uKu) or (uKu == 0.0 and S_E == 0.0) or case["field"] == "rotation")
-    if disc:
-        ctx.count("energy_identities_discriminating")
-    energy_mode = "conforming"
-    e_en = abs(en - uKu)
-    if not e_en <= tol_E:
-        if mode_1 == "doubled" and stress_mode == "doubled" and abs(en - (uKu + 3 * shear_energy)) <= tol_E:
-            energy_mode = "doubled"
-            e_en = abs(en - (uKu + 3 * shear_energy))
-        else:
-            raise Violation("energy/stress-strain-work-differs-from-uKu", work=en, uKu=uKu, tol=tol_E,
-                            predicted_if_shear_doubled=uKu + 3 * shear_energy, strain_mode=mode_1,
-                            stress_mode=stress_mode, E=E, nu=nu, plane=plane, **info)
+        m_k = pym.AssembleStiffness(S("x", x.copy()), domain=dom1, e_modulus=E, poisson_ratio=nu, plane=plane)
+        m_k.response()
+        K = m_k.sig_out[0].state
+        Ve = float(np.prod(h[:dim]))
+        en = float(np.sum(x * Ve * np.sum(sig * eps1, axis=0)))
+        uKu = float(u @ (K @ u))
+        S_E = float(np.abs(u) @ (abs(K) @ np.abs(u)))
+        tol_E = 1e-12 * S_E
+        shear_energy = float(np.sum(x) * Ve * ((D @ ref_v)[dim:] @ ref_v[dim:]))
+        ctx.count("energy_identities_compared")
+        # with a large rigid offset the rounding bound of u'Ku exceeds the energy itself: compared, but not counted
+        disc = bool(tol_E <= 1e-6 * abs(uKu) or (uKu == 0.0 and S_E == 0.0) or case["field"] == "rotation")
+        if disc:
+            ctx.count("energy_identities_discriminating")
+        energy_mode = "conforming"
+        e_en = abs(en - uKu)
+        if not e_en <= tol_E:
+            if mode_1 == "doubled" and stress_mode == "doubled" and abs(en - (uKu + 3 * shear_energy)) <= tol_E:
+                energy_mode = "doubled"
+                e_en = abs(en - (uKu + 3 * shear_energy))
+            else:
+                raise Violation("energy/stress-strain-work-differs-from-uKu", work=en, uKu=uKu, tol=tol_E,
+                                predicted_if_shear_doubled=uKu + 3 * shear_energy, strain_mode=mode_1,
+                                stress_mode=stress_mode, E=E, nu=nu, plane=plane, **info)
+    except Violation:
+        if "doubled" in (mode_v, mode_t):
+            ctx.count("known_shear_doubling_observed")
+            ctx.violate(KNOWN_K1, modes={"strain_voigt": mode_v, "strain_tensor": mode_t}, stated_strain=ref_v,
+                        strain_returned=_out(m_v)[:, 0], tensor_strain_stated=ref_t,
+                        tensor_strain_returned=_out(m_t)[:, 0],
+                        note="another clause of this case deviates in a different way (separate mechanism)", **info)
+        raise
 
     modes = {"strain_voigt": mode_v, "strain_tensor": mode_t, "strain_unit": mode_1, "stress": stress_mode,
              "energy": energy_mode}
